@@ -266,7 +266,7 @@ pub const U_VALUES: &[&str] = &[
     "ǅ", "-_.", "a:00", "B:ff,a:00", ":", ",",
 ];
 
-pub const U_KEYS: &[&str] = &["k", "K", "checksum", "Checksum", "a.b-c_1", "", "!", "é", "k%"];
+pub const U_KEYS: &[&str] = &["k", "K", "checksum", "Checksum", "a.b-c_1", "", "!", "é", "k%", "\u{212A}"];
 
 pub const U_TYPES_GENERIC: &[&str] = &["t", "T", "tT", "t1", "T+", "a.b-c", "1t", "", "!", "t/", "é", "T%41", "npm", "MAVEN"];
 
